@@ -12,6 +12,7 @@ FUNCTIONS = [
     "pendulum.date:Date.week_of_month", "pendulum.date:Date.days_in_month", "pendulum.date:Date.quarter",
     "pendulum.date:Date.is_leap_year", "pendulum.date:Date.is_long_year",
 ]
+RUST_CROSSCHECK = True
 ASSUMPTIONS = [
     "oracle = CPython's ord<->ymd algorithms on linear-form integers (vf/cal.py), validated per path "
     "against the C datetime module in the real-mode cross-run",
